@@ -332,7 +332,21 @@ pub struct MacroIter<R: Reader> {
 
 impl<R: Reader> MacroIter<R> {
     /// Advance the iterator to the next entry in the `.debug_macro` section.
+    ///
+    /// If an error occurs while parsing the next entry, then this error is returned
+    /// as `Err(e)`, and all subsequent calls return `Ok(None)`.
     pub fn next(&mut self) -> Result<Option<MacroEntry<R>>> {
+        if self.input.is_empty() {
+            return Ok(None);
+        }
+        let result = self.parse_next();
+        if result.is_err() {
+            self.input.empty();
+        }
+        result
+    }
+
+    fn parse_next(&mut self) -> Result<Option<MacroEntry<R>>> {
         // DW_MACINFO_* and DW_MACRO_* have the same values, so we can use the same parsing logic.
         let macro_type = DwMacro(self.input.read_u8()?);
         match macro_type {
